@@ -242,6 +242,15 @@ type pipe struct {
 	mutAct2 func(genuine []byte, actOne []byte) []byte
 
 	bud budget
+
+	// duplex family (all optional, nil/zero = behaviour unchanged): scheduling
+	// hooks run at the start of every transport-phase Write / Read, and rdStops
+	// lists the offsets (in bytes delivered since the stops were installed) at
+	// which a Read returns short, like a TCP segment boundary.
+	onWrite func()
+	onRead  func()
+	rdStops []int
+	rdOff   int
 }
 
 func newPipe(resp *brontide.Machine) *pipe {
@@ -253,6 +262,9 @@ func (p *pipe) Write(b []byte) (int, error) {
 		return 0, net.ErrClosed
 	}
 	if p.stage == 2 {
+		if p.onWrite != nil {
+			p.onWrite()
+		}
 		return p.bud.take(&p.toResp, b)
 	}
 	p.hsIn = append(p.hsIn, b...)
@@ -297,11 +309,30 @@ func (p *pipe) Read(b []byte) (int, error) {
 	if p.closed {
 		return 0, net.ErrClosed
 	}
+	if p.onRead != nil {
+		p.onRead()
+	}
 	if p.toInit.Len() == 0 {
 		// Nothing will ever arrive in a single-threaded world: the peer is gone.
 		return 0, io.EOF
 	}
-	return p.toInit.Read(b)
+	if p.rdStops != nil {
+		b = b[:stopLimit(p.rdStops, p.rdOff, len(b))]
+	}
+	n, err := p.toInit.Read(b)
+	p.rdOff += n
+	return n, err
+}
+
+// stopLimit caps a read of n bytes starting at stream offset off so that it does
+// not cross the next stop.
+func stopLimit(stops []int, off, n int) int {
+	for _, s := range stops {
+		if s > off && s-off < n {
+			n = s - off
+		}
+	}
+	return n
 }
 
 func (p *pipe) Close() error                       { p.closed = true; return nil }
